@@ -27,6 +27,9 @@ func linAtom(a string) Lin {
 }
 
 func (a Lin) clone() Lin {
+	if a.C == nil {
+		a.C = new(big.Rat)
+	}
 	r := Lin{C: new(big.Rat).Set(a.C), T: map[string]*big.Rat{}}
 	for k, v := range a.T {
 		r.T[k] = new(big.Rat).Set(v)
@@ -61,7 +64,7 @@ func (a Lin) Neg() Lin {
 
 func (a Lin) Sub(b Lin) Lin { return a.Add(b.Neg()) }
 
-func (a Lin) IsZero() bool { return a.C.Sign() == 0 && len(a.T) == 0 }
+func (a Lin) IsZero() bool { return (a.C == nil || a.C.Sign() == 0) && len(a.T) == 0 }
 
 func (a Lin) IsConst() bool { return len(a.T) == 0 }
 
@@ -110,6 +113,9 @@ func (a Lin) Subst(atom string, by Lin) Lin {
 }
 
 func (a Lin) String() string {
+	if a.C == nil {
+		a.C = new(big.Rat)
+	}
 	var parts []string
 	for _, k := range a.Atoms() {
 		c := a.T[k]
@@ -303,6 +309,16 @@ type IterV struct {
 
 func (i *IterV) vs() string { return fmt.Sprintf("iter%d:%s", i.ID, i.T.Name) }
 
+// IndexKeyV: a generated ORM index key built with With<Fields>(values…).
+type IndexKeyV struct {
+	Type   string
+	Fields []string // Go field names of the row fixed by this key
+	Vals   []Val
+	Name   string
+}
+
+func (k *IndexKeyV) vs() string { return k.Name }
+
 func vstr(v Val) string {
 	if v == nil {
 		return "<undef>"
@@ -320,6 +336,7 @@ type Obj struct {
 	Origin string // how it was obtained, for rules: get:<method>(keys) | iter:<iter> | literal
 	T      types.Type
 	F      map[string]Val // fields by path (".A", ".A.B", "[0]", "" for cells)
+	Preset map[string]Val // rows: columns fixed by the lookup key
 	ErrID  int            // rows: the error result of the Get that produced it (0 = none)
 	ReadAt int            // event index of the read that produced it
 	Loop   string         // loop tag at creation
@@ -327,6 +344,12 @@ type Obj struct {
 
 func (o *Obj) clone() *Obj {
 	n := *o
+	if o.Preset != nil {
+		n.Preset = make(map[string]Val, len(o.Preset))
+		for k, v := range o.Preset {
+			n.Preset[k] = v
+		}
+	}
 	n.F = make(map[string]Val, len(o.F))
 	for k, v := range o.F {
 		n.F[k] = v
